@@ -257,7 +257,7 @@ def prColType (d : Gen.D) (t : ColType) : P :=
   | none => .ok t.name
   | some ps =>
     if d == .HIVE && !(["DECIMAL", "VARCHAR", "CHAR"].contains (Gen.pyUpperS t.name)) then .ok t.name
-    else (prList d ps).map fun l => s!"{t.name}({joinS "," l})"
+    else (prList8 d ps).map fun l => s!"{t.name}({joinS "," l})"
 
 /-- `ASTDefineColumnExpression.source` (`node.py:1407-1431`) -/
 def prDefCol (d : Gen.D) (c : DefCol) : P := do
@@ -267,7 +267,7 @@ def prDefCol (d : Gen.D) (c : DefCol) : P := do
     | some g => if my then (do
         let e ← prE d g.e
         match g.mode with
-        | some m => pure s!" GENERATED ALWAYS AS ({e}) {m}"
+        | some m => pure s!" GENERATED ALWAYS AS ({wrap g.e 8 e}) {m}"
         | none => .error (.py .AttributeError))
       else pure ""
     | none => pure "")
